@@ -227,8 +227,35 @@ def cls_integer_division(case):
     return False
 
 
+def cls_conditional_scalar(case):
+    """The conflicting location is a scalar that the loop body writes only
+    under a condition / inside an inner loop (so it is not 'unconditionally
+    written before being read'), yet the loop is reported parallelisable
+    (DependencyTools._is_scalar_parallelisable only looks at the static
+    order of accesses)."""
+    import re
+    from psyclone.psyir.nodes import Assignment, Reference
+    from psyclone.psyir.symbols import ArrayType
+    if case.get("bucket") != "conflict":
+        return False
+    mat = re.search(r"(?:write|reads) (\w+)\[flat", case.get("conflict", ""))
+    if not mat:
+        return False
+    name = mat.group(1).lower()
+    loop = _loop_of(case)
+    writes = [asg for asg in loop.walk(Assignment)
+              if type(asg.lhs) is Reference and
+              asg.lhs.symbol.name.lower() == name]
+    if not writes:
+        return False
+    if isinstance(writes[0].lhs.symbol.datatype, ArrayType):
+        return False
+    return any(not unconditional_in(asg, loop) for asg in writes)
+
+
 CLASSIFIERS = {
     "subscript_integer_division": cls_integer_division,
+    "scalar_written_conditionally": cls_conditional_scalar,
 }
 
 
@@ -263,6 +290,7 @@ def run(ctx):
                         ctx.nontriv([src.replace(prog.uid, "@"), idx])
                         ctx.sample({"loop": idx, "module": src})
                     if conflict:
+                        case["conflict"] = conflict
                         ctx.fail("conflict", case,
                                  f"loop {idx} reported parallelisable but "
                                  f"{conflict}")
